@@ -5,6 +5,7 @@ package frugal
 // Serves C01 (correlation), C06 (no head-of-line blocking) and C13 (timeouts).
 
 import (
+	"math/big"
 	"fmt"
 	"io"
 	"strconv"
@@ -55,6 +56,9 @@ type vfMuxCfg struct {
 	fstall   int   // index of the pipe flush that never returns (-1: none)
 	werr     int   // index of the pipe write that fails (-1: none)
 	oneway   bool  // callers use Oneway instead of Request
+	pad      int  // size of every frame body the peer sends (0: as small as it gets)
+	tviaHeader bool // the timeout is set through the _timeout request header
+	malformed bool // the sequence contains a frame that is not well-formed
 	burst    bool  // the peer sends the whole sequence at once, after every caller's request arrived
 }
 
@@ -81,10 +85,20 @@ func vfParseMuxCfg(s string) vfMuxCfg {
 			c.oneway = p[1] == "oneway"
 		case "burst":
 			c.burst = p[1] == "1"
+		case "pad":
+			c.pad, _ = strconv.Atoi(p[1])
+		case "tvia":
+			c.tviaHeader = p[1] == "header"
 		case "f":
 			for _, t := range strings.Split(p[1], ".") {
 				if t == "u" {
 					c.frames = append(c.frames, -1)
+				} else if strings.HasPrefix(t, "w") {
+					// an op id nobody issued that equals caller k's op id modulo 2^64: not a uint64, so the
+					// frame is malformed and the transport may close itself, but it is nobody's response
+					v, _ := strconv.Atoi(t[1:])
+					c.frames = append(c.frames, 1000+v-1)
+					c.malformed = true
 				} else if t != "" {
 					v, _ := strconv.Atoi(t)
 					c.frames = append(c.frames, v-1)
@@ -117,7 +131,13 @@ func vfMuxMake(scn string) (func(), func(*vsched.Exec) (string, *vsched.Violatio
 			ctx := NewFContext(fmt.Sprintf("cid%d", i))
 			// every FContext is confined to its caller in this harness (C17 covers sharing)
 			ctx.(*FContextImpl).mu.SetQuiet()
-			ctx.SetTimeout(cfg.timeouts[i])
+			if cfg.tviaHeader {
+				// the timeout arrives as a header (a gateway copying the inbound request headers onto
+				// its outbound context)
+				ctx.AddRequestHeader("_timeout", strconv.FormatInt(int64(cfg.timeouts[i]/time.Millisecond), 10))
+			} else {
+				ctx.SetTimeout(cfg.timeouts[i])
+			}
 			op, _ := ctx.RequestHeader(opIDHeader)
 			st.callers = append(st.callers, &vfMuxCaller{ctx: ctx, opid: op, timeout: cfg.timeouts[i]})
 		}
@@ -138,6 +158,10 @@ func vfMuxMake(scn string) (func(), func(*vsched.Exec) (string, *vsched.Violatio
 			if c >= 0 && c < cfg.n {
 				op = st.callers[c].opid
 			}
+			if c >= 1000 {
+				own, _ := new(big.Int).SetString(st.callers[c-1000].opid, 10)
+				op = new(big.Int).Add(own, new(big.Int).Lsh(big.NewInt(1), 64)).String()
+			}
 			mark := fmt.Sprintf("m%d", len(st.emitted))
 			st.emitted = append(st.emitted, op+"/"+mark)
 			if c >= 0 && c < cfg.n {
@@ -156,7 +180,12 @@ func vfMuxMake(scn string) (func(), func(*vsched.Exec) (string, *vsched.Violatio
 					}
 				}
 			}
-			p.inbound = append(p.inbound, vfFrame(map[string]string{"_opid": op, "_cid": "x"}, []byte(mark))...)
+			fr := vfFrame(map[string]string{"_opid": op, "_cid": "x"}, []byte(mark))
+			if cfg.pad > 0 && len(fr)-4 < cfg.pad {
+				// the frame body (what follows the size prefix) is exactly pad bytes long
+				fr = vfFrame(map[string]string{"_opid": op, "_cid": "x"}, []byte(mark+strings.Repeat("~", cfg.pad-(len(fr)-4))))
+			}
+			p.inbound = append(p.inbound, fr...)
 			st.framesK++
 			if cfg.burst && st.framesK < len(cfg.frames) {
 				return p.next(p) // the rest of the burst is already on the wire
@@ -253,7 +282,7 @@ func vfMuxMake(scn string) (func(), func(*vsched.Exec) (string, *vsched.Violatio
 						c.outcome = "garbled"
 					} else {
 						c.gotOpid = h["_opid"]
-						c.gotMark = string(pl)
+						c.gotMark = strings.TrimRight(string(pl), "~")
 						c.outcome = "ok:" + c.gotOpid + "/" + c.gotMark
 					}
 				}
@@ -333,6 +362,9 @@ func vfMuxMake(scn string) (func(), func(*vsched.Exec) (string, *vsched.Violatio
 				if cfg.werr >= 0 && strings.HasPrefix(c.outcome, "terr") {
 					break // the injected write failure is reported to exactly the caller whose write failed
 				}
+				if cfg.malformed && strings.HasPrefix(c.outcome, "terr") {
+					break // the transport gave up on a stream that carried a malformed frame
+				}
 				viol("C01/unexpected-outcome/"+c.outcome, fmt.Sprintf("caller%d: outcome %q is neither its own response nor a timeout", i, c.outcome))
 			}
 		}
@@ -341,7 +373,7 @@ func vfMuxMake(scn string) (func(), func(*vsched.Exec) (string, *vsched.Violatio
 				viol("C01/registry-leak", fmt.Sprintf("%d registrations left after all callers returned", n))
 			}
 		}
-		if cfg.wstall < 0 && cfg.fstall < 0 && cfg.werr < 0 {
+		if cfg.wstall < 0 && cfg.fstall < 0 && cfg.werr < 0 && !cfg.malformed {
 			// the peer only ever sent well-formed frames and nothing failed
 			if !st.tr.isOpen || !st.pipe.open {
 				viol("C06/transport-closed-by-benign-input", "the client transport closed itself although the peer sent only well-formed frames and no fault was injected: no later frame can be delivered")
@@ -421,6 +453,20 @@ func init() {
 				out = append(out, "n=2,t=1/5,call=oneway,"+fault+"f=")
 			}
 			out = append(out, "n=2,t=1/5,call=oneway,f=1.u")
+			// frame bodies at and around the sizes at which buffers fill up
+			for _, pad := range []int{4095, 4096, 4097, 8192} {
+				for _, f := range []string{"1", "2.1"} {
+					out = append(out, fmt.Sprintf("n=2,t=5/5,pad=%d,f=%s", pad, f))
+				}
+			}
+			// the timeout given through the request header instead of SetTimeout
+			for _, f := range []string{"", "2", "2.1"} {
+				out = append(out, "n=2,t=1/5,tvia=header,f="+f)
+			}
+			// an op id beyond 64 bits that is congruent to a caller's own
+			for _, f := range []string{"w1", "w1.1", "w2.1.2", "1.w2.2", "w2.w1"} {
+				out = append(out, "n=2,t=1/5,f="+f)
+			}
 			// bursts of frames nobody waits for (unknown op ids, duplicates) in front of a wanted response
 			many := func(tok string, n int) string { return strings.TrimSuffix(strings.Repeat(tok+".", n), ".") }
 			for _, f := range []string{many("u", 12) + ".2", many("u", 16) + ".2.1", "2." + many("2", 12) + ".1", many("u", 6) + "." + many("1", 7) + ".2"} {
